@@ -1,7 +1,7 @@
 """C12 -- spec_property and classproperty follow the override / cache / getter protocol."""
 import shutil
 
-from .. import common, pipeline, tla
+from .. import canary, common, pipeline, tla
 from .. import d_specproperty as D
 
 SP_CFG = """SPECIFICATION Spec
@@ -53,6 +53,7 @@ def main(tier):
             events += o
         rep.mark('drive')
         res = tla.judge("J_SpecProperty", events, chunk=6000, jobs=common.jobs())
+        pipeline.canaries(rep, "J_SpecProperty", events[::max(1, len(events) // 40)], canary.steps_family, env=None, want=16)
         rep.mark('judge')
         for gi, clause, detail in res["bad"]:
             e = events[gi]
